@@ -1,6 +1,7 @@
 package vm
 
 import (
+	"context"
 	"fmt"
 	"slices"
 	"sync"
@@ -34,7 +35,7 @@ type Promise struct {
 	result        value.Value
 	stackTrace    *value.StackTrace
 	err           value.Value
-	wg            sync.WaitGroup // the wait group hits 0 when the promise is resolved, used for waiting for a promise
+	done          chan struct{} // closed when the promise is resolved, used for waiting for a promise; nil in promises created as resolved
 	m             sync.Mutex
 }
 
@@ -44,7 +45,7 @@ func NewPromise(threadPool *ThreadPool, generator *Generator) *Promise {
 		ThreadPool: threadPool,
 		Body:       generator,
 	}
-	p.wg.Add(1)
+	p.done = make(chan struct{})
 
 	threadPool.AddTask(p)
 	return p
@@ -61,7 +62,7 @@ func newPromiseFromThread(thread *Thread, threadPool *ThreadPool, generator *Gen
 		ThreadPool: threadPool,
 		Body:       generator,
 	}
-	p.wg.Add(1)
+	p.done = make(chan struct{})
 
 	verifAsync("addtask:before", nil, p, thread)
 	enqueueTask(threadPool.TaskQueue, p)
@@ -77,7 +78,7 @@ func NewBytecodePromise(threadPool *ThreadPool, bytecode *BytecodeFunction, args
 		ThreadPool: threadPool,
 		Body:       generator,
 	}
-	p.wg.Add(1)
+	p.done = make(chan struct{})
 
 	threadPool.AddTask(p)
 	return p
@@ -89,7 +90,7 @@ func NewNativePromise(threadPool *ThreadPool, fn NativeFunction, args ...value.V
 		ThreadPool: threadPool,
 		Body:       NewNativePromiseBody(fn, args...),
 	}
-	p.wg.Add(1)
+	p.done = make(chan struct{})
 
 	threadPool.AddTask(p)
 	return p
@@ -102,7 +103,7 @@ func NewExternalPromise(threadPool *ThreadPool) *Promise {
 	p := &Promise{
 		ThreadPool: threadPool,
 	}
-	p.wg.Add(1)
+	p.done = make(chan struct{})
 	return p
 }
 
@@ -164,13 +165,30 @@ func (p *Promise) IsResolved() bool {
 
 // Wait for the result of the promise.
 func (p *Promise) AwaitSync() (value.Value, *value.StackTrace, value.Value) {
-	p.wg.Wait()
+	if p.done != nil {
+		<-p.done
+	}
+	return p.result, p.stackTrace, p.err
+}
+
+// Wait for the result of the promise or for the cancellation of the context.
+// Returns `Std::ExecutionAbortedError` when the context gets cancelled first.
+func (p *Promise) AwaitSyncCtx(ctx context.Context) (value.Value, *value.StackTrace, value.Value) {
+	if p.done != nil {
+		select {
+		case <-p.done:
+		case <-ctx.Done():
+			return value.Undefined, nil, value.ExecutionAbortedError.ToValue()
+		}
+	}
 	return p.result, p.stackTrace, p.err
 }
 
 // Wait for the result of the promise. Panics on error.
 func (p *Promise) MustAwaitSync() value.Value {
-	p.wg.Wait()
+	if p.done != nil {
+		<-p.done
+	}
 	if p.err.IsNotUndefined() {
 		panic(p.err)
 	}
@@ -199,7 +217,7 @@ func (p *Promise) ResolveReject(result, err value.Value) {
 	p.ThreadPool = nil
 	p.result = result
 	p.err = err
-	p.wg.Done()
+	close(p.done)
 	verifAsync("resolve:published", p, nil, nil)
 	p.enqueueContinuations(queue)
 
@@ -216,7 +234,7 @@ func (p *Promise) Resolve(result value.Value) {
 	p.Body = nil
 	p.ThreadPool = nil
 	p.result = result
-	p.wg.Done()
+	close(p.done)
 	verifAsync("resolve:published", p, nil, nil)
 	p.enqueueContinuations(queue)
 
@@ -234,7 +252,7 @@ func (p *Promise) Reject(err value.Value, stackTrace *value.StackTrace) {
 	p.ThreadPool = nil
 	p.err = err
 	p.stackTrace = stackTrace
-	p.wg.Done()
+	close(p.done)
 	verifAsync("resolve:published", p, nil, nil)
 	p.enqueueContinuations(queue)
 
